@@ -758,6 +758,13 @@ func reshape(r *hx.Rand, s string) string {
 // n3Registered: finding N3 (more than 800 significant digits before the decimal point are mis-scaled
 // by decimal.set) is generated only once known_findings.json lists it; until then such texts would
 // turn every run into an unregistered violation. The model mirrors the defect either way.
+// n3eRegistered: finding N3E (exponent literal >= 100000 clamped to its first five digits, visible when
+// the mantissa text compensates it); same gating.
+var n3eRegistered = func() bool {
+	data, err := os.ReadFile(os.Getenv("VERIF_ROOT") + "/known_findings.json")
+	return err == nil && bytes.Contains(data, []byte(`"id": "N3E"`))
+}()
+
 var n3Registered = func() bool {
 	data, err := os.ReadFile(os.Getenv("VERIF_ROOT") + "/known_findings.json")
 	return err == nil && bytes.Contains(data, []byte(`"id": "N3"`))
@@ -1036,8 +1043,9 @@ func genIters(r *hx.Rand) (string, string) {
 // Every case is a K case (the model mirrors the clamp). It is an S case as well exactly when the
 // hypothesis of parseFloat_correct holds — literal < 100000, or a mantissa inside those bounds (and
 // outside N3) — where code and specification must agree. The compensating texts beyond the
-// bounds are K-only: there the real code (and strconv) return a finite wrong value; they are the
-// finding candidate described in notes/C03.md and become S cases once it is registered.
+// bounds are known finding N3E (the real code and strconv return a finite wrong value): S cases
+// only while N3E is listed in known_findings.json, tagged kf=N3E by the driver where the
+// specification really differs; K-only otherwise.
 func clampCases(r *hx.Rand) {
 	run1 := func(hex bool, ip, fp string, esign string, lit string, tag string) {
 		num := ip
@@ -1054,15 +1062,16 @@ func clampCases(r *hx.Rand) {
 		}
 		sig := len(strings.TrimLeft(ip, "0"))
 		small := len(strings.TrimLeft(lit, "0_")) <= 5 && !strings.Contains(lit, "_")
-		moderate := sig <= 800 && len(fp) <= 9691
+		moderate := sig <= 9669 && len(fp) <= 9691
 		if hex {
 			moderate = sig <= 2231 && len(fp) <= 2244
-		} else if sig > 800 && n3Registered && small {
-			moderate = true // N3 class: known finding, tagged by the driver
 		}
+		inN3 := !hex && sig > 800
+		inN3E := !small && !moderate
 		// the specification is only evaluated for literals of at most 7 digits (10^(10^7) is the
-		// largest power worth computing)
-		withSpec := (small || moderate) && len(strings.TrimLeft(lit, "0")) <= 7
+		// largest power worth computing); the two classes of known findings only while registered
+		// (the driver tags them kf=N3 / kf=N3E)
+		withSpec := len(strings.TrimLeft(lit, "0")) <= 7 && (!inN3 || n3Registered) && (!inN3E || n3eRegistered)
 		lineCase(strconv.Itoa(1+r.Intn(9)), num, tag, withSpec)
 	}
 	lits := []string{"9999", "10000", "10001", "99999", "100000", "100001", "123456", "999999", "1000000", "000099999", "0000100000",
